@@ -902,7 +902,7 @@ class Interp(object):
                 if isinstance(tg, ast.Subscript):
                     c = self.eval(tg.value, env, ctx)
                     k = self.eval(tg.slice, env, ctx)
-                    if isinstance(c, (dict, list)) and not isinstance(k, Abs):
+                    if isinstance(c, (dict, list)) and (not isinstance(k, Abs) or _hashable_abs(k)):
                         try:
                             del c[k]
                         except (KeyError, IndexError) as ex:
